@@ -304,6 +304,16 @@ func runC08(p *Program, r *Report) {
 						key = k
 					}
 				}
+				if key == "" && msg != "" && msg != "log.Fatal" {
+					// the statement moved to another function (a step extracted into a helper, a method of an embedded
+					// type): the invariant it guards is identified by its message
+					for k := range triagedPanics {
+						parts := strings.SplitN(k, "|", 2)
+						if strings.HasPrefix(msg, parts[1]) && (key == "" || seenTriaged[key]) {
+							key = k
+						}
+					}
+				}
 				c := "panic-site:" + short + "|" + msg
 				if key != "" {
 					seenTriaged[key] = true
